@@ -148,6 +148,7 @@ func runC15RWith(c c15RCase, z, data []byte, rec *stat.Rec) *stat.Failure {
 	}
 	var out []byte
 	var err error
+	afterEOF := false // a Read after the reported failure returned io.EOF
 	if c.R.WriteTo {
 		var sink inst.Sink
 		_, err = rd.WriteTo(&sink)
@@ -170,6 +171,20 @@ func runC15RWith(c c15RCase, z, data []byte, rec *stat.Rec) *stat.Failure {
 			n, err = rd.Read(buf[:sz])
 			out = append(out, buf[:n]...)
 			if err != nil {
+				if err != io.EOF {
+					// a caller that tries again after the failure (bufio does, a retry loop does): whatever else is delivered
+					// must still be content, and the stream must not come to a clean end short of it
+					for k := 0; k < 3; k++ {
+						n2, err2 := rd.Read(buf[:sz])
+						out = append(out, buf[:n2]...)
+						if err2 == io.EOF {
+							afterEOF = true
+						}
+						if err2 != nil && n2 == 0 {
+							break
+						}
+					}
+				}
 				break
 			}
 		}
@@ -216,6 +231,9 @@ func runC15RWith(c c15RCase, z, data []byte, rec *stat.Rec) *stat.Failure {
 	}
 	if want := failWant(c.FailKind); !errors.Is(err, want) {
 		return stat.Failf("C15/reader/reported-error-is-not-the-source-error/"+conc+"/"+errClass(err), "%s: the source failed with %v, the reader returned %v", desc, want, err)
+	}
+	if afterEOF && len(out) < len(data) {
+		return stat.Failf("C15/reader/clean-end-of-stream-after-the-reported-failure/"+conc, "%s: the failure was returned (%v), the Reads after it ended with io.EOF after %d of %d bytes", desc, err, len(out), len(data))
 	}
 	if !bytes.HasPrefix(data, out) {
 		return stat.Failf("C15/reader/delivered-bytes-not-a-prefix/"+conc, "%s: %d bytes delivered, first difference at %d", desc, len(out), firstDiff(out, data))
